@@ -70,6 +70,11 @@ def _setup() -> None:
     q("Q5", 5, 5, dims.ONE)
     q("Qm4m", -4 * U.meter, -4, dims.L)
     q("Q3kg", 3 * U.kilogram, 3, dims.M)
+    # magnitudes whose products leave the double range (1e-400, 1e+400) but are ordinary sympy numbers
+    L["1e-200"] = sp.Float("1e-200")
+    L["1e200"] = sp.Float("1e200")
+    q("Qtiny", sp.Float("1e-200") * U.meter, sp.Float("1e-200"), dims.L)
+    q("Qhuge", sp.Float("1e200") * U.second, sp.Float("1e200"), dims.T)
     x = SPSymbol("x", U.length)
     L["x"] = x
     f = SPFunction("f", [x], U.length)
@@ -78,9 +83,9 @@ def _setup() -> None:
 
 FULL = ["2", "-3", "1/2", "1.5", "I", "0", "oo", "-oo", "nan", "meter", "second", "kilogram",
     "gram", "kelvin", "newton", "joule", "radian", "electronvolt", "centimeter", "kilo", "milli",
-    "Q3m", "Q0len", "Q2s", "Q5", "Qm4m", "Q3kg", "x", "D"]
+    "Q3m", "Q0len", "Q2s", "Q5", "Qm4m", "Q3kg", "x", "D", "1e-200", "Qtiny", "Qhuge"]
 MEDIUM = ["2", "-3", "0", "oo", "nan", "meter", "second", "kilogram", "newton", "radian", "kilo",
-    "Q3m", "Q0len", "Q2s", "Qm4m", "x"]
+    "Q3m", "Q0len", "Q2s", "Qm4m", "x", "Qtiny", "Qhuge"]
 REDUCED = ["2", "0", "oo", "meter", "second", "kilo", "Q3m", "Q0len", "x"]
 EXPONENTS = ["2", "-3", "1/2", "1.5", "0", "meter", "Q5", "Q0len", "radian", "oo"]
 COMM = ("Add", "Mul", "Min", "Max")
@@ -139,7 +144,7 @@ def level_up(trees: list[Any], partners: list[str], exps: list[str], bases: list
 def space(thorough: bool) -> Iterator[Any]:
     for n in FULL:
         yield n
-    t1 = list(level1(FULL, MEDIUM[:14], EXPONENTS))
+    t1 = list(level1(FULL, MEDIUM[:14] + MEDIUM[16:], EXPONENTS))
     yield from t1
     yield from level_up(t1, FULL if thorough else MEDIUM, EXPONENTS, REDUCED)
     if thorough:
@@ -300,7 +305,7 @@ def judge(e: Any) -> tuple[str, str]:
             f"gives value {short(wv)} and dimension {wd}")
     gv, gd = got
     try:
-        gdv = dims.of_dimension(gd)
+        gdv = None if isinstance(wd, dims.AnyDim) else dims.of_dimension(gd)
     except Exception as ex:
         return "accepted", f"unreadable dimension {gd}: {ex}"
     if isinstance(wd, dims.AnyDim):
